@@ -72,7 +72,8 @@ def gen_item(rng, idx):
         if handler:
             mattrs.append("sv::msg(%s)" % kind)
             if kind in ("exec", "query", "sudo") and rng.random() < 0.3:
-                mattrs.append('sv::attr(serde(rename = "%s_x"))' % n)
+                # the framework's attributes on a method may come in any order
+                mattrs.insert(rng.choice([0, len(mattrs)]), 'sv::attr(serde(rename = "%s_x"))' % n)
         for a in FOREIGN_METHOD:
             if rng.random() < 0.2:
                 mattrs.insert(rng.randrange(len(mattrs) + 1), a)
@@ -117,7 +118,9 @@ def gen_item(rng, idx):
         src = "\n".join(["#[%s]" % a for a in item_attrs] + ["impl Ct%d {" % idx] + new + extra + lines + ["}"])
         macro = "contract"
         abs_methods.insert(0, {"attrs": [], "params": [], "rest": "new"})
-    return macro, "", src, {"attrs": [attr(a) for a in item_attrs], "methods": abs_methods}
+    # the contract macro's legacy form with an argument: no code is generated, the item must still be re-emitted stripped
+    margs = "module=crate::legacy" if macro == "contract" and rng.random() < 0.15 else ""
+    return macro, margs, src, {"attrs": [attr(a) for a in item_attrs], "methods": abs_methods}
 
 
 def observed_strip(first):
